@@ -9,11 +9,11 @@
   Valid parameters are `winSize ≤ min ≤ avg ≤ max` (`NewChunker`); only `min`, `max` and the
   discriminator `d` derived from `avg` enter the model.
 
-  The parallel file chunker (`IndexFromFile`) is covered by the correspondence and the
-  implementation monitor only in this revision; its full statement is kept below as
-  `parallel_eq_sequential_stmt` (a `Prop`, not a theorem) — see DESIGN §6 C02.
+  The parallel file chunker (`IndexFromFile`) is the step machine `Model/ParChunk.lean`; parallel =
+  sequential is proved for every interleaving (second half of this file, DESIGN §6 C02 and §12).
 -/
 import Desync.Proofs.ChunkerProofs
+import Desync.Proofs.ParChunkInst
 
 namespace Desync.C02
 open Desync
@@ -120,16 +120,78 @@ theorem gen_sites :
   refine ⟨by decide, by decide, by decide, by decide, by decide, ?_, by decide⟩
   rfl
 
-/-! ### the parallel chunker — full statement, not proved in this revision -/
+/-! ### the parallel file chunker (`IndexFromFile`, make.go)
 
-/-- For every input, valid parameters, worker count `n ≥ 1` and goroutine interleaving, every
-    terminal state of the parallel machine holds the index `chunkAll p data` with IDs `H(slice)`.
-    `parRun` stands for the step machine of `make.go` (DESIGN appendix A.9). -/
-def parallel_eq_sequential_stmt
-    (parRun : ChunkParams → Bytes → Nat → List Nat → Option (List (Nat × Nat))) : Prop :=
-  ∀ (p : ChunkParams) (data : Bytes) (n : Nat) (schedule : List Nat),
-    winSize ≤ p.min → p.min ≤ p.max → 1 ≤ n →
-    ∀ r, parRun p data n schedule = some r → r = chunkAll p data
+  `Par.step` (`Model/ParChunk.lean`) is the step machine of `IndexFromFile`: n workers, their
+  buckets, `syncWith` with the null-chunk fast-forward, the skip of stopped and drained workers
+  and the main routine; every channel operation is a step and steps of different goroutines
+  interleave arbitrarily.  `Par.envOf p data n` instantiates it with the single-stream chunker of
+  `Model/Chunker.lean` (`cut pos = cutRoll p (data.drop pos)`), the worker layout regenerated from
+  `IndexFromFile` (`Gen.parNN`, `parSpan`, `parStart`) and "has the null chunk's ID" = a genuine
+  chunk of `max` zero bytes.  The machine is tied to the code by its regenerated decisions
+  (`Gen.par*`) and by trace validation: event traces recorded from `IndexFromFile` under a
+  cooperative scheduler must be runs of `Par.step` (driver command `par.accept`). -/
+
+/-- **parallel = sequential**: for every input, all valid parameters, every requested worker count
+    `n ≥ 1` and *every interleaving*: whenever the main routine finishes, it reports success and the
+    index is exactly the single-stream chunk sequence -/
+theorem parallel_eq_sequential (p : ChunkParams) (data : Bytes) (n : Nat)
+    (hw : winSize ≤ p.min) (hmm : p.min ≤ p.max) (hn : 1 ≤ n)
+    (s : Par.St) (hr : Par.Reachable (Par.envOf p data n) (Par.init (Par.envOf p data n)) s)
+    (ok : Bool) (hf : s.main = .finished ok) :
+    ok = true ∧ s.index.map (fun c => (c.start, c.size)) = chunkAll p data :=
+  Par.parallel_eq_chunkAll p data n hw hmm hn s hr ok hf
+
+/-- at every moment of every run the index assembled so far is a prefix of the single-stream sequence -/
+theorem parallel_index_prefix (p : ChunkParams) (data : Bytes) (n : Nat)
+    (hw : winSize ≤ p.min) (hmm : p.min ≤ p.max) (hn : 1 ≤ n)
+    (s : Par.St) (hr : Par.Reachable (Par.envOf p data n) (Par.init (Par.envOf p data n)) s) :
+    s.index.map (fun c => (c.start, c.size)) <+: chunkAll p data :=
+  Par.index_prefix_chunkAll p data n hw hmm hn s hr
+
+/-- **no deadlock**: no reachable state is stuck before the main routine has finished -/
+theorem parallel_never_stuck (p : ChunkParams) (data : Bytes) (n : Nat)
+    (hw : winSize ≤ p.min) (hmm : p.min ≤ p.max) (hn : 1 ≤ n)
+    (s : Par.St) (hr : Par.Reachable (Par.envOf p data n) (Par.init (Par.envOf p data n)) s)
+    (hm : ∀ ok, s.main ≠ .finished ok) : ∃ ev s', Par.step (Par.envOf p data n) s ev = some s' :=
+  Par.parallel_not_stuck _ _ (Par.envOf_ok p data n hw hmm hn) s hr hm
+
+/-- **termination**: a measure decreases with every step, so every schedule is finite -/
+theorem parallel_terminates (p : ChunkParams) (data : Bytes) (n : Nat)
+    (hw : winSize ≤ p.min) (hmm : p.min ≤ p.max) (hn : 1 ≤ n) :
+    ∃ μ : Par.St → Nat, ∀ s ev s', Par.Reachable (Par.envOf p data n) (Par.init (Par.envOf p data n)) s →
+      Par.step (Par.envOf p data n) s ev = some s' → μ s' < μ s :=
+  Par.parallel_terminates _ _ (Par.envOf_ok p data n hw hmm hn)
+
+/-- the null chunks a worker writes after `Advance` without reading the data are genuine: each covers
+    `max` zero bytes and is the chunk the chunker produces there, so the null chunk's ID is its ID -/
+theorem synthesised_null_chunks_genuine (p : ChunkParams) (data : Bytes) (n : Nat)
+    (hw : winSize ≤ p.min) (hmm : p.min ≤ p.max) (hn : 1 ≤ n)
+    (s : Par.St) (hr : Par.Reachable (Par.envOf p data n) (Par.init (Par.envOf p data n)) s)
+    (i : Nat) (w : Par.Worker) (last : Par.Chunk) (k : Nat)
+    (hwk : s.workers[i]? = some w) (hpc : w.pc = .advance last k) :
+    ∀ j, j < k → (Par.envOf p data n).isNull ⟨last.fin + j * p.max, p.max⟩ = true :=
+  Par.synthesised_null_chunks_genuine p data n hw hmm hn s hr i w last k hwk hpc
+
+/-- sends never block: a worker's bucket never holds more chunks than the capacity
+    `mChunks = (size - start)/min + 1` its channel is created with -/
+theorem bucket_within_capacity (p : ChunkParams) (data : Bytes) (n : Nat)
+    (hw : winSize ≤ p.min) (hmm : p.min ≤ p.max) (hn : 1 ≤ n)
+    (s : Par.St) (hr : Par.Reachable (Par.envOf p data n) (Par.init (Par.envOf p data n)) s)
+    (i : Nat) (w : Par.Worker) (o : Nat)
+    (hwk : s.workers[i]? = some w) (ho : (Par.offsetsOf data.length p.max n)[i]? = some o) :
+    w.bucket.length ≤ Gen.parMChunks data.length o p.min :=
+  Par.bucket_within_capacity p data n hw hmm hn s hr i w o hwk ho
+
+/-- the decisions and the order of operations the machine is built from were all found in make.go,
+    and the order of `pChunker.start` is the one the machine implements -/
+theorem gen_par_sites :
+    Gen.site_par_loopCond_found = true ∧ Gen.site_par_matchCond_found = true ∧ Gen.site_par_nullCond_found = true ∧
+    Gen.site_par_nInit_found = true ∧ Gen.site_par_nStep_found = true ∧ Gen.site_par_numNull_found = true ∧
+    Gen.site_par_skipCond_found = true ∧ Gen.site_par_stopCond_found = true ∧ Gen.site_par_finalErrCond_found = true ∧
+    Gen.site_par_nn_found = true ∧ Gen.site_par_nnCond_found = true ∧ Gen.site_par_span_found = true ∧
+    Gen.site_par_start_found = true ∧ Gen.site_par_mChunks_found = true ∧ Gen.site_shape_par_start_found = true ∧
+    Gen.parStartShape = Par.modelledStartShape := by decide
 
 /-! ### non-vacuity -/
 
